@@ -5,6 +5,21 @@ use serde_json::{json, Value};
 
 pub const MIN_SCORE: i32 = -858_993_459;
 
+/// A substitution table as a match function that can be cloned together with the aligner owning it
+/// (a boxed closure cannot).
+#[derive(Clone, Debug)]
+pub struct TabFn {
+    pub al: Vec<u8>,
+    pub tab: Vec<Vec<i32>>,
+}
+impl bio::alignment::pairwise::MatchFunc for TabFn {
+    fn score(&self, a: u8, b: u8) -> i32 {
+        let i = self.al.iter().position(|&x| x == a).unwrap();
+        let j = self.al.iter().position(|&x| x == b).unwrap();
+        self.tab[i][j]
+    }
+}
+
 /// symbol index (1-based) of byte b in the run's alphabet
 pub fn sym(alpha: &[u8], b: u8) -> i64 {
     alpha.iter().position(|&a| a == b).map(|p| p as i64 + 1).unwrap_or(0)
